@@ -6,6 +6,7 @@ import ITree.Model.Lists
 import ITree.Model.Seg
 import ITree.Model.Check
 import ITree.Model.SegCheck
+import ITree.Model.Arena
 /-!
 # Line-protocol driver: evaluates the model definitions (the ones the theorems are about)
 
@@ -414,6 +415,135 @@ def runSeg (op : Toks) (s? : Option (Seg Int)) (extra : Toks := []) : String :=
   | ["clear"], some s => answer "1" "ok" (showSeg s.clear) ""
   | _, _ => "BAD"
 
+/-! arena-level model: `R <root> <cap> <nUnused> u… N <n> (<parent> <left> <right> <red> <key> <exp> <val>)*` -/
+
+def parseANodes : Nat → Toks → Option (List (ANode Int) × Toks)
+  | 0, ts => some ([], ts)
+  | n+1, p :: l :: r :: c :: k :: x :: v :: ts => do
+    let p ← tokNat p
+    let l ← tokNat l
+    let r ← tokNat r
+    let k ← tokInt k
+    let x ← tokInt x
+    let v ← tokInt v
+    let (ns, rest) ← parseANodes n ts
+    some (⟨p, l, r, c == "1", ⟨k, x, v⟩⟩ :: ns, rest)
+  | _, _ => none
+
+def parseArena (dflt : E) : Toks → Option (Arena Int)
+  | "R" :: root :: cap :: nu :: rest => do
+    let root ← tokNat root
+    let cap ← tokNat cap
+    let nu ← tokNat nu
+    let (us, rest) ← takeN tokNat nu rest
+    match rest with
+    | "N" :: n :: rest =>
+      let n ← tokNat n
+      let (ns, rest) ← parseANodes n rest
+      if rest.isEmpty then some { nodes := ns.toArray, root := root, unused := us.toArray, cap := cap, dflt := dflt } else none
+    | _ => none
+  | _ => none
+
+def showArena (a : Arena Int) : String :=
+  joinSp (["R", toString a.root, toString a.cap, toString a.unused.size] ++ a.unused.toList.map toString ++
+    ["N", toString a.nodes.size] ++ a.nodes.toList.flatMap fun n =>
+      [toString n.parent, toString n.left, toString n.right, if n.red then "1" else "0",
+       toString n.ent.key, toString n.ent.exp, toString n.ent.val])
+
+def showH (h : Nat) : String := if h == EMPTY then "none" else toString h
+
+def fieldOf (name : String) (ans : String) : String :=
+  match (ans.splitOn " | ").find? (fun p => p.startsWith (name ++ "=")) with
+  | some p => (p.drop (name.length + 1)).toString
+  | none => ""
+
+/-- run one operation on the arena model; `none` = fault -/
+def arenaOp (isKey : Bool) (op : Toks) (a : Arena Int) : Option (Arena Int × String) :=
+  let fuel := a.nodes.size + 1
+  match isKey, op with
+  | false, ["insert", k, v] => do
+    let k ← tokInt k; let v ← tokInt v
+    let a' ← a.insert ⟨k, 0, v⟩
+    pure (a', "ok")
+  | false, ["delete", k] => do
+    let k ← tokInt k
+    let a' ← a.delete k
+    pure (a', "ok")
+  | false, ["delidx", h] => do
+    let h ← tokNat h
+    let a' ← a.deleteIndex h
+    pure (a', "ok")
+  | false, ["get", k] => do
+    let k ← tokInt k
+    let i ← Arena.findIndex fuel a k a.root
+    if i == EMPTY then pure (a, "none") else do
+      let n ← a.node i
+      pure (a, toString n.ent.val)
+  | false, ["validx", h] => do
+    let h ← tokNat h
+    let n ← a.node h
+    pure (a, toString n.ent.val)
+  | false, ["setidx", h, v] => do
+    let h ← tokNat h; let v ← tokInt v
+    let n ← a.node h
+    let a' ← a.setEnt h (n.ent.setVal v)
+    pure (a', "ok")
+  | false, ["fil", k] => do
+    let k ← tokInt k
+    let r ← Arena.firstLessBy fuel a (fun x => compare x k) a.root EMPTY
+    pure (a, showH r)
+  | false, ["filby", q] => do
+    let q ← tokInt q
+    let r ← Arena.firstLessBy fuel a (cmpQ q) a.root EMPTY
+    pure (a, showH r)
+  | false, ["after", h] => do
+    let h ← tokNat h
+    let r ← a.indexAfter h
+    pure (a, showH r)
+  | false, ["before", h] => do
+    let h ← tokNat h
+    let r ← a.indexBefore h
+    pure (a, showH r)
+  | _, ["clear"] => do
+    let a' ← a.clear
+    pure (a', "ok")
+  | _, ["isempty"] => pure (a, toString (a.root == EMPTY))
+  | true, ["insert", k, x, v, t] => do
+    let k ← tokInt k; let x ← tokInt x; let v ← tokInt v; let t ← tokInt t
+    let a' ← a.kInsert ⟨k, x, v⟩ t
+    pure (a', "ok")
+  | true, ["export", t] => do
+    let t ← tokInt t
+    let (a', vals, capReq) ← a.kExport t
+    pure (a', s!"{showInts vals} cap={capReq}")
+  | true, [m, t, k] => do
+    let (mode, by_) ← (match m with
+      | "fl" => some (Mode.fl, false) | "fle" => some (Mode.fle, false) | "fleby" => some (Mode.fle, true)
+      | "get" => some (Mode.get, false) | _ => none)
+    let t ← tokInt t; let k ← tokInt k
+    let f : Int → Ordering := if by_ then cmpQ k else fun x => compare x k
+    let (a', r) ← a.kQuery mode t f
+    pure (a', showOptInt r)
+  | _, _ => none
+
+/-- arena request: the answer carries the raw arena; `wf` reports whether the arena model agrees
+with the zipper model on the abstraction of the same pre-state (refinement, checked per transition) -/
+def runArena (coll : String) (op : Toks) (a : Arena Int) : String :=
+  let base := (coll.drop 1).toString     -- amap -> map
+  let isKey := base == "key"
+  match a.abs with
+  | none => "wf=0:abs | out=FAULT | st=- | tr="
+  | some st =>
+    let z := runTree base op st none
+    match arenaOp isKey op a with
+    | none => s!"wf={if fieldOf "out" z == "FAULT" then "1" else "0:refine-fault"} | out=FAULT | st=- | tr="
+    | some (a', out) =>
+      let absStr := match a'.abs with
+        | some st' => showSt st'
+        | none => "ABSFAIL"
+      let ok := fieldOf "out" z == out && fieldOf "st" z == absStr && fieldOf "wf" z == "1"
+      s!"wf={if ok then "1" else "0:refine(zipper: out=" ++ fieldOf "out" z ++ " wf=" ++ fieldOf "wf" z ++ ")"} | out={out} | st={showArena a'} | tr="
+
 inductive AnySt where
   | none
   | tree (s : St Int)
@@ -448,6 +578,17 @@ def process (line : String) : String :=
       | ["new", _] => runKList op (KL.new 0)
       | _ => match parseK stToks with
         | some s => runKList op s inj
+        | none => "BADSTATE"
+    else if coll == "amap" || coll == "aset" || coll == "akey" then
+      let dflt : E := match rest.drop 1 with
+        | ["D", k, x, v] :: _ => ⟨(tokInt k).getD 0, (tokInt x).getD 0, (tokInt v).getD 0⟩
+        | _ => ⟨0, 0, 0⟩
+      match op with
+      | ["new", c] => match tokNat c with
+        | some c => s!"wf=1 | out=ok | st={showArena (Arena.new c dflt)} | tr="
+        | none => "BAD"
+      | _ => match parseArena dflt stToks with
+        | some a => runArena coll op a
         | none => "BADSTATE"
     else if coll == "seg" then
       match op with
